@@ -3,6 +3,7 @@ package sim
 import (
 	"errors"
 	"fmt"
+	"math"
 	"strconv"
 	"strings"
 	"time"
@@ -54,8 +55,27 @@ type replayerWorld struct {
 
 func (w *replayerWorld) clockNow() time.Time { return w.epoch.Add(w.now) }
 
+// satAdd and satMul: durations near the end of time.Duration's range (a TTL meant to keep
+// everything for the lifetime of the program) must not wrap around in the reference.
+func satAdd(a, b time.Duration) time.Duration {
+	if b > 0 && a > math.MaxInt64-b {
+		return math.MaxInt64
+	}
+	return a + b
+}
+
+func satMul(a time.Duration, k int64) time.Duration {
+	if a > 0 && int64(a) > math.MaxInt64/k {
+		return math.MaxInt64
+	}
+	return a * time.Duration(k)
+}
+
+// hugeTTL: nothing expires within any history generated here.
+func (w *replayerWorld) hugeTTL() bool { return w.ttl > 100*365*24*time.Hour }
+
 func (w *replayerWorld) expired(e modelEntry, at time.Duration) bool {
-	return !w.finite && e.put+w.ttl <= at
+	return !w.finite && satAdd(e.put, w.ttl) <= at
 }
 
 // live returns the model's buffer: last n accepted puts (finite) or all
@@ -295,6 +315,7 @@ func (w *replayerWorld) doReplayBiased(classWeights []int) {
 		} else {
 			sub.FailSendAt = ch.Range(1, 3, "failing send")
 		}
+		sub.Disguise = drawDisguise(ch, "replay failure")
 	}
 	err := w.r.Replay(sse.Subscription{Client: sub, LastEventID: id, Topics: topics})
 	w.op("Replay(id=%s topics=%s failSend=%d failFlush=%d)@%v -> %d sends err=%v", desc, fmtTopics(topics), sub.FailSendAt, sub.FailFlushAt, w.now, sub.sends, err)
@@ -527,6 +548,11 @@ func runReplayerWorld(rc *RunCtx) (out *Outcome) {
 	} else {
 		ttls := []time.Duration{10 * time.Second, time.Second, 100 * time.Millisecond, time.Hour}
 		w.ttl = ttls[ch.Intn(len(ttls), "ttl")]
+		if ch.Chance(1, 8, "ttl for the lifetime of the program") {
+			// "It is technically possible to use a very big duration in order to store and replay every message put"
+			w.ttl = []time.Duration{250 * 365 * 24 * time.Hour, math.MaxInt64}[ch.Intn(2, "huge ttl")]
+			o.probe("TTL beyond 100 years")
+		}
 		vr, err := sse.NewValidReplayer(w.ttl, w.auto)
 		if err != nil {
 			o.violate("C09", "constructor", "NewValidReplayer(%v): %v", w.ttl, err)
@@ -537,7 +563,7 @@ func runReplayerWorld(rc *RunCtx) (out *Outcome) {
 		case 1:
 			vr.GCInterval = 0
 		case 2:
-			vr.GCInterval = w.ttl * 3
+			vr.GCInterval = satMul(w.ttl, 3)
 		case 3:
 			vr.GCInterval = w.ttl / 20
 		}
@@ -576,7 +602,7 @@ func runReplayerWorld(rc *RunCtx) (out *Outcome) {
 			o.fault("explicit GC")
 		case 5:
 			// GCInterval is an exported field: it may be changed while the replayer is in use
-			vals := []time.Duration{0, w.ttl / 4, w.ttl * 3, w.ttl / 20}
+			vals := []time.Duration{0, w.ttl / 4, satMul(w.ttl, 3), w.ttl / 20}
 			w.vr.GCInterval = vals[ch.Intn(len(vals), "new gc interval")]
 			w.gcInt = w.vr.GCInterval
 			w.op("GCInterval = %v", w.gcInt)
@@ -590,7 +616,7 @@ func runReplayerWorld(rc *RunCtx) (out *Outcome) {
 					liveIdx = append(liveIdx, k)
 				}
 			}
-			if len(liveIdx) > 0 {
+			if len(liveIdx) > 0 && !w.hugeTTL() {
 				e := w.all[liveIdx[ch.Intn(len(liveIdx), "boundary entry")]]
 				w.now = e.put + w.ttl
 				w.op("advance to the expiry of %s -> %v", e.tag, w.now)
@@ -606,6 +632,9 @@ func runReplayerWorld(rc *RunCtx) (out *Outcome) {
 			}
 		case 3:
 			adv := []time.Duration{0, w.ttl / 10, w.ttl / 3, w.ttl - 1, w.ttl, w.ttl + 1, w.ttl * 5}
+			if w.hugeTTL() {
+				adv = []time.Duration{0, time.Second, time.Hour, 24 * time.Hour, 365 * 24 * time.Hour, time.Minute, 30 * 24 * time.Hour}
+			}
 			d := adv[ch.Intn(len(adv), "advance")]
 			// boundary-directed: jump to (just before) the expiry of a chosen live entry,
 			// so that exactly a chosen prefix of the buffer expires
@@ -615,7 +644,7 @@ func runReplayerWorld(rc *RunCtx) (out *Outcome) {
 					liveIdx = append(liveIdx, k)
 				}
 			}
-			if len(liveIdx) > 0 && ch.Chance(1, 2, "advance to an expiry boundary") {
+			if len(liveIdx) > 0 && !w.hugeTTL() && ch.Chance(1, 2, "advance to an expiry boundary") {
 				e := w.all[liveIdx[ch.Intn(len(liveIdx), "boundary entry")]]
 				d = e.put + w.ttl - w.now
 				if ch.Chance(1, 3, "just before") {
